@@ -395,3 +395,225 @@ func vuRecover(report func(key, detail string)) {
 		report("panic:"+k, fmt.Sprintf("panic: %v\n%s", e, strings.Join(st, "\n")))
 	}
 }
+
+// ---- grammar-based header block generator (C02, C03)
+
+type vuGen struct {
+	rng       *rand.Rand
+	model     *hpackref.Decoder // generator-side table model, so that indices are mostly valid
+	maxStrLen int
+	allowed   uint32
+	hostile   float64 // probability that a representation is deliberately broken
+	words     []string
+}
+
+func vuNewGen(rng *rand.Rand, maxTable uint32, maxStrLen int, hostile float64) *vuGen {
+	g := &vuGen{rng: rng, model: hpackref.NewDecoder(maxTable), maxStrLen: maxStrLen, allowed: maxTable, hostile: hostile}
+	g.words = []string{"", "a", "b", "x-a", "x-b", "k", "cookie", "gzip", "0", "1", "text/html", ":path", "/", "Mon, 21 Oct 2013 20:13:21 GMT",
+		strings.Repeat("v", 15), strings.Repeat("w", 16), strings.Repeat("~", 17), "\x00\xff", strings.Repeat("e", 126), strings.Repeat("f", 127), strings.Repeat("g", 128),
+		strings.Repeat("long-", 60)}
+	return g
+}
+
+func (g *vuGen) str() string {
+	rng := g.rng
+	if g.maxStrLen > 0 && rng.IntN(3) == 0 {
+		// around the configured maximum
+		n := g.maxStrLen + rng.IntN(3) - 1
+		if n < 0 {
+			n = 0
+		}
+		b := make([]byte, n)
+		switch rng.IntN(3) {
+		case 0:
+			for i := range b {
+				b[i] = "aeiost012"[rng.IntN(9)] // 5-bit codes: Huffman form is shorter
+			}
+		case 1:
+			for i := range b {
+				b[i] = byte(1 + rng.IntN(8)) // 28-bit codes: Huffman form is 3.5 times longer
+			}
+		default:
+			for i := range b {
+				b[i] = byte(rng.Uint32())
+			}
+		}
+		return string(b)
+	}
+	if rng.IntN(6) == 0 {
+		b := make([]byte, rng.IntN(40))
+		for i := range b {
+			b[i] = byte(rng.Uint32())
+		}
+		return string(b)
+	}
+	return g.words[rng.IntN(len(g.words))]
+}
+
+func (g *vuGen) pad() int {
+	switch g.rng.IntN(12) {
+	case 0:
+		return 1 + g.rng.IntN(3)
+	case 1:
+		return 8 // a 127-octet length then takes 10 octets: the longest integer readVarInt accepts
+	case 2:
+		if g.rng.Float64() < g.hostile {
+			return 9 + g.rng.IntN(4) // longer than any implementation needs to accept
+		}
+	}
+	return 0
+}
+
+var vuHugeInts = []uint64{1 << 31, 1<<32 - 1, 1 << 32, 1<<62 + 5, 1<<63 - 1, 1 << 63, ^uint64(0)}
+
+func (g *vuGen) index(nameOnly bool) uint64 {
+	rng := g.rng
+	n := uint64(61 + len(g.model.Dyn))
+	if rng.Float64() < g.hostile {
+		switch rng.IntN(5) {
+		case 0:
+			if !nameOnly {
+				return 0
+			}
+			return n + 1
+		case 1:
+			return n + 1
+		case 2:
+			return n + 2 + uint64(rng.IntN(200))
+		case 3:
+			return vuHugeInts[rng.IntN(len(vuHugeInts))]
+		default:
+			return 127 + uint64(rng.IntN(3)) // prefix boundary
+		}
+	}
+	if len(g.model.Dyn) > 0 && rng.IntN(2) == 0 {
+		return 62 + uint64(rng.IntN(len(g.model.Dyn)))
+	}
+	return 1 + uint64(rng.IntN(61))
+}
+
+// appendStr appends a string literal, possibly broken.
+func (g *vuGen) appendStr(dst []byte, s string) []byte {
+	rng := g.rng
+	huff := rng.IntN(2) == 0
+	pad := g.pad()
+	if rng.Float64() >= g.hostile*0.5 {
+		return hpackref.AppendString(dst, s, huff, pad)
+	}
+	switch rng.IntN(6) {
+	case 0: // declared length larger than the data
+		data := []byte(s)
+		if huff {
+			data = hpackref.HuffmanEncode(nil, s)
+		}
+		flags := byte(0)
+		if huff {
+			flags = 0x80
+		}
+		dst = hpackref.AppendInt(dst, 7, flags, uint64(len(data)+1+rng.IntN(5)), pad)
+		return append(dst, data...)
+	case 1: // enormous declared length
+		return hpackref.AppendInt(dst, 7, byte(rng.IntN(2))<<7, vuHugeInts[rng.IntN(len(vuHugeInts))], 0)
+	case 2: // Huffman with a flipped bit
+		data := hpackref.HuffmanEncode(nil, s+"x")
+		data[rng.IntN(len(data))] ^= 1 << rng.IntN(8)
+		dst = hpackref.AppendInt(dst, 7, 0x80, uint64(len(data)), pad)
+		return append(dst, data...)
+	case 3: // Huffman with a whole octet of padding
+		data := append(hpackref.HuffmanEncode(nil, s), 0xff)
+		dst = hpackref.AppendInt(dst, 7, 0x80, uint64(len(data)), pad)
+		return append(dst, data...)
+	case 4: // Huffman containing EOS
+		data := append(hpackref.HuffmanEncode(nil, s), 0xff, 0xff, 0xff, 0xff)
+		dst = hpackref.AppendInt(dst, 7, 0x80, uint64(len(data)), pad)
+		return append(dst, data...)
+	default: // Huffman ending in zero padding
+		data := hpackref.HuffmanEncode(nil, s+"0")
+		data[len(data)-1] &^= 1
+		dst = hpackref.AppendInt(dst, 7, 0x80, uint64(len(data)), pad)
+		return append(dst, data...)
+	}
+}
+
+// rep appends one representation and advances the generator's table model.
+func (g *vuGen) rep(dst []byte) []byte {
+	rng := g.rng
+	start := len(dst)
+	switch x := rng.IntN(100); {
+	case x < 32:
+		dst = hpackref.AppendIndexed(dst, g.index(false), g.pad())
+	case x < 80:
+		kind := []byte{'L', 'L', 'N', 'V'}[rng.IntN(4)]
+		var nameIdx uint64
+		if rng.IntN(2) == 0 {
+			nameIdx = g.index(true)
+		}
+		switch kind {
+		case 'L':
+			dst = hpackref.AppendInt(dst, 6, 0x40, nameIdx, g.pad())
+		case 'V':
+			dst = hpackref.AppendInt(dst, 4, 0x10, nameIdx, g.pad())
+		default:
+			dst = hpackref.AppendInt(dst, 4, 0x00, nameIdx, g.pad())
+		}
+		if nameIdx == 0 {
+			dst = g.appendStr(dst, g.str())
+		}
+		dst = g.appendStr(dst, g.str())
+	case x < 92:
+		v := uint64(g.allowed)
+		switch rng.IntN(4) {
+		case 0:
+			v = 0
+		case 1:
+			v = uint64(rng.IntN(int(g.allowed) + 1))
+		case 2:
+			v = uint64(rng.IntN(200))
+			if v > uint64(g.allowed) {
+				v = uint64(g.allowed)
+			}
+		}
+		if rng.Float64() < g.hostile {
+			if rng.IntN(2) == 0 {
+				v = uint64(g.allowed) + 1 + uint64(rng.IntN(3))
+			} else {
+				v = vuHugeInts[rng.IntN(len(vuHugeInts))]
+			}
+		}
+		dst = hpackref.AppendSizeUpdate(dst, v, g.pad())
+	default:
+		if rng.Float64() < g.hostile {
+			for i := 1 + rng.IntN(4); i > 0; i-- {
+				dst = append(dst, byte(rng.Uint32()))
+			}
+		} else {
+			dst = hpackref.AppendIndexed(dst, 1+uint64(rng.IntN(61)), 0)
+		}
+	}
+	g.model.MaxStrLen = 0
+	g.model.Decode(dst[start:]) // keeps the model's table roughly in step; errors are irrelevant here
+	return dst
+}
+
+// vuSplit cuts b into k consecutive chunks at PRNG positions (chunks may be empty).
+func vuSplit(rng *rand.Rand, b []byte, k int) [][]byte {
+	if k <= 1 || len(b) == 0 {
+		return [][]byte{b}
+	}
+	cuts := make([]int, k-1)
+	for i := range cuts {
+		cuts[i] = rng.IntN(len(b) + 1)
+	}
+	for i := range cuts { // insertion sort, k is tiny
+		for j := i; j > 0 && cuts[j] < cuts[j-1]; j-- {
+			cuts[j], cuts[j-1] = cuts[j-1], cuts[j]
+		}
+	}
+	var out [][]byte
+	prev := 0
+	for _, c := range cuts {
+		out = append(out, b[prev:c])
+		prev = c
+	}
+	return append(out, b[prev:])
+}
